@@ -28,7 +28,8 @@ ASSUMPTIONS = [
     '(unbounded) retry budget because a dead but not yet stale worker burns retries quickly',
     'real OS threads: oracles are schedule independent; hangs and failures are re-run before being reported',
 ]
-ACTIONS = ['ok', 'deadline_before', 'deadline_after', 'die', 'die_graceful', 'restart']
+# presumed_dead: the reply is delayed; meanwhile the worker is pronounced dead (unregistered), then it answers after all
+ACTIONS = ['ok', 'deadline_before', 'deadline_after', 'die', 'die_graceful', 'restart', 'presumed_dead']
 
 
 def setup():
@@ -36,7 +37,7 @@ def setup():
   courier_server.CourierServer.__del__ = lambda self: None
 
 
-def install_plan(cl, plan):
+def install_plan(cl, plan, plan_delay=0.05):
   """plan: {worker index: {method: [actions]}}; translates die_graceful and restart into transport hooks."""
   import courier  # pylint: disable=g-import-not-at-top
   from ml_metrics._src.utils import courier_utils  # pylint: disable=g-import-not-at-top
@@ -45,23 +46,36 @@ def install_plan(cl, plan):
     for m, actions in methods.items():
       acts = []
       for a in actions:
-        acts.append('die' if a == 'die_graceful' else a)
+        acts.append('die' if a == 'die_graceful' else ('hold' if a == 'presumed_dead' else a))
       courier.PLANS[(addr, m)] = acts
   graceful = {cl.addrs[int(wi)] for wi, ms in plan.items() for acts in ms.values() if 'die_graceful' in acts}
+  slow = any('presumed_dead' in acts for ms in plan.values() for acts in ms.values())
   # a gracefully dying worker tells its clients (heartbeat is_alive=False) before it goes away
   orig_pop = None
 
   def watcher():
     seen = set()
+    held = {}       # id(call entry) -> time the reply was parked
     while not cl.done:
       for c in list(courier.CALLS):
         if c[2] == 'die' and c[0] in graceful and c[0] not in seen:
           seen.add(c[0])
           courier_utils.worker_registry().unregister(c[0])
+        if c[2] == 'hold' and id(c) not in held:
+          # the worker is slow, not dead: its clients give it up (stale heartbeat) ...
+          held[id(c)] = time.time()
+          courier_utils.worker_registry().unregister(c[0])
+      # ... and it answers after all, once the run had time to move its work elsewhere
+      if courier.HELD and held and time.time() - min(held.values()) > cl.answer_after:
+        try:
+          courier.release(0)
+        except IndexError:
+          pass
       time.sleep(0.002)
   import threading  # pylint: disable=g-import-not-at-top
   cl.done = False
-  if graceful:
+  cl.answer_after = plan_delay
+  if graceful or slow:
     threading.Thread(target=watcher, daemon=True).start()
   courier.RESTART_HOOK = cl.restart
 
@@ -142,7 +156,7 @@ def run_sharded(case):
   poison = bool(shape.get('poison')) and any(x in shape['poison'] for b in data for x in b['a'])
   want_out, want_agg = ([], None) if poison else dist.in_process(data, shape)
   cl = dist.Cluster(case['workers'], prefetch_size=case['prefetch_size'], iterate_batch_size=case['iterate_batch_size'], tag='s')
-  install_plan(cl, case['plan'])
+  install_plan(cl, case['plan'], case.get('answer_after', 0.05))
   rq = queue.SimpleQueue()
   out = []
   kw = {}
@@ -209,6 +223,7 @@ def strat_sharded(tier):
       case['retry_threshold'] = draw(st.integers(0, 3))
     else:
       case['plan'] = _plan(draw, workers, ['init_generator', 'next_batch_from_generator'], 6)
+      case['answer_after'] = draw(st.sampled_from([0.005, 0.02, 0.05]))
     return case
   return s()
 
@@ -217,5 +232,5 @@ SCENARIOS = [
     Scenario('as_completed_faults', run_tasks, strategy=strat_tasks, setup=setup, budget={'quick': 250, 'thorough': 3000},
              shards={'quick': 8, 'thorough': 16}, nondeterministic=True),
     Scenario('sharded_faults', run_sharded, strategy=strat_sharded, setup=setup, budget={'quick': 300, 'thorough': 4000},
-             shards={'quick': 8, 'thorough': 16}, nondeterministic=True),
+             shards={'quick': 8, 'thorough': 16}, nondeterministic=True, confirm_tries=25),
 ]
